@@ -26,7 +26,7 @@ def main(tier):
             "arithmetic, the gate's 64-bit fit predicates and the leaf ranges of UInt/Int/Bcd equal the language-level "
             "ranges of those types for every width (R-INTRANGE), and the intermediate type covers result and operands "
             "(R-INTERMEDIATE). "
-            "The static (alignment, offset) claimed for a sub-buffer depends on the parent's and on the relative alignment and offset (R-SUBALIGN, dependency of each template argument); the size of a sub-buffer handed out by ContiguousBuffer::GetOffsetStorage is the smaller of the request and what is left of the parent, with the unsigned difference guarded against wrap-around (R-CLAMP). "
+            "The static (alignment, offset) claimed for a sub-buffer depends on the parent's and on the relative alignment and offset (R-SUBALIGN, dependency of each template argument); the overflow guard of the text integer decoder depends on every operand of the update it protects, so UpdateFromText cannot overflow a signed accumulator (R-GUARDDEPS); the size of a sub-buffer handed out by ContiguousBuffer::GetOffsetStorage is the smaller of the request and what is left of the parent, with the unsigned difference guarded against wrap-around (R-CLAMP). "
             "Not decided: absence of out-of-bounds access for all buffers and dynamic offsets; correctness of the alignment arithmetic itself."))
     chk.run("R-NOABORT", C.noabort, cx.cpp, cx.templates, floor=12, control=lambda: cx.cpp_control)
     chk.run("R-SIBLING", C.sibling, cx.cpp, floor=80, control=lambda: cx.cpp_control)
@@ -36,6 +36,7 @@ def main(tier):
     chk.run("R-GATE", P.gate, cx.repo, cx.schema, cx.sites, floor=4)
     chk.run("R-INTRANGE", RG.intrange, cx.repo, floor=190)
     chk.run("R-INTERMEDIATE", RG.intermediate, cx.repo, floor=2)
+    chk.run("R-GUARDDEPS", C.guarddeps, cx.cpp, floor=2)
     chk.run("R-SUBALIGN", WN.subalign, cx.cpp, floor=2)
     chk.run("R-CLAMP", WN.clamp, cx.cpp, floor=3)
     return chk.finish()
